@@ -537,3 +537,21 @@ package codecs
 //@   ensures fits [C08,C13]: 1 <= result0 && result0 <= wantToWrite && result0 + lebLenInt(result0) <= canWrite
 //@ end
 //@ pure lebLenInt(x) = ite(x < 128, 1, ite(x < 16384, 2, ite(x < 2097152, 3, ite(x < 268435456, 4, 5))))
+//
+//@ pure bool av1Packets(ps, n) = forall k :: 0 <= k && k < n ==> ps[k] != nil && fresh(ps[k]) && len(ps[k]) >= 1
+//@ pure bool av1Distinct(ps, n) = forall a, b :: 0 <= a && a < b && b < n ==> !sameobj(ps[a], ps[b])
+//@ spec (*AV1Payloader).Payload>appendOBUPayload
+//@   inline
+//@   loop 0: invariant frag [C08]: remaining == len(obuPayload) && remaining >= 0 && currentPayload == len(payloads) - 1 && currentPayload >= 0 && mtu >= 2 && mtu <= 65535 && fresh(payloads) && toWrite >= 0
+//@   loop 0: invariant packets [C08]: av1Packets(payloads, len(payloads))
+//@   loop 0: invariant distinct [C08]: av1Distinct(payloads, len(payloads))
+//@   loop 0: decreases remaining
+//@ end
+//@ spec (*AV1Payloader).Payload
+//@   loop 0: invariant walk [C08]: 0 <= offset && offset <= len(payload) && mtu >= 2 && 0 <= obusInPacket && obusInPacket <= 3 && (fresh(payloads) || cap(payloads) == 0) && len(payloads) >= 0 && (currentOBUPayload == nil || fresh(currentOBUPayload))
+//@   loop 0: invariant packets [C08]: av1Packets(payloads, len(payloads))
+//@   loop 0: invariant distinct [C08]: av1Distinct(payloads, len(payloads))
+//@   loop 0: decreases len(payload) - offset
+//@   ensures nothing [C08,C13]: (mtu <= 1 || len(payload) == 0) ==> len(payloads) == 0
+//@   ensures owned [C08]: av1Packets(payloads, len(payloads)) && (len(payloads) > 0 ==> fresh(payloads))
+//@ end
